@@ -84,6 +84,19 @@ Section Statements.
       Ok (map (layer_of digest size) (filter (fun o => kind_eqb (o_kind o) k) ops)).
   Proof. exact (@descriptors_by_kind blob msg dg). Qed.
 
+  (* the listing accessors (get_instances / get_solutions): every layer of the kind in insertion
+     order, each with ITS OWN descriptor (digest, size, annotations) and the decoding of its own
+     blob -- also when several layers hold the same bytes; for every artifact type (they read the
+     raw manifest) *)
+  Theorem C20_listing : forall digest size dg_eqb,
+    (forall x y, dg_eqb x y = true <-> x = y) ->
+    forall decode empty_json ty ops k,
+    inj_on digest (stored_blobs empty_json ops) ->
+    list_kind dg_eqb decode k (build_with digest size empty_json ty ops) =
+      Some (map (fun o => (layer_of digest size o, decode k (o_blob o)))
+                (filter (fun o => kind_eqb (o_kind o) k) ops)).
+  Proof. intros digest size dg_eqb H decode empty_json. exact (@list_kind_built blob msg dg digest size dg_eqb H decode empty_json). Qed.
+
   (* ---- annotations ---- *)
   Theorem C20_annotations_get_set : forall k v a, aget k (aset k v a) = Some v.
   Proof. exact aget_aset_same. Qed.
@@ -154,6 +167,7 @@ Print Assumptions C20_get_first_match.
 Print Assumptions C20_manifest_accept.
 Print Assumptions C20_manifest_reject.
 Print Assumptions C20_descriptors_by_kind.
+Print Assumptions C20_listing.
 Print Assumptions C20_annotations_get_set.
 Print Assumptions C20_annotations_get_set_other.
 Print Assumptions C20_annotations_frame.
